@@ -33,7 +33,7 @@ def method_paths(ctx, cls, name):
     # run with a fresh symbolic instance of the *concrete* class so that self.method resolves through its MRO
     def run(it_):
         sv = Inst(ci, {}, "self")
-        bound = {p: Num(nf.sym(p)) for p in m.params[1:] + m.kwonly}
+        bound = it_.symbolic_args(m)
         return it_._exec_function(m, bound, sv, None, m.cls)
 
     return it, m, it.explore(run)
